@@ -981,6 +981,35 @@ pub fn run_c06(cfg: &Cfg) -> i32 {
             rep.sample(json!({"case": c, "scripted_units": r["scripted_units"], "observed_reads": r["observed_reads"], "ssh_packets": r["ssh_packets"], "results": r["results"]}));
         }
     }
+    // a read that is abandoned half-way (the reply future that was reading is dropped after part
+    // of a message has arrived) is one more way the stream gets split between reads: what the
+    // next reader is handed must still be the peer's messages, complete and in order
+    if cfg.shard == 0 {
+        let mut extra = Vec::new();
+        let mut id = 1_000_000;
+        for &tr in &trs {
+            for which in [0, 1] {
+                for f in [1, 2, 3] {
+                    id += 1;
+                    extra.push(json!({"kind": "drop-partial", "id": id, "tr": tr.name(), "drop": which, "fraction": f}));
+                }
+            }
+        }
+        for cr in &run_cases(extra, 12, &[], Duration::from_secs(40)) {
+            let (c, r) = (&cr.case, &cr.result);
+            let key = format!("abandoned|{}|{}|{}", c["tr"], c["drop"], c["fraction"]);
+            rep.case(Some(key.as_bytes()));
+            rep.count("class:reader-abandoned-mid-message");
+            match r["verdict"].as_str().unwrap_or("") {
+                "held" => rep.count("held"),
+                "violated" => {
+                    let symptoms: Vec<String> = r["symptoms"].as_array().map(|a| a.iter().filter_map(|s| s.as_str().map(ToString::to_string)).collect()).unwrap_or_default();
+                    rep.violation(&format!("{}:reader-abandoned-mid-message:{}", c["tr"].as_str().unwrap_or("?"), symptoms.first().cloned().unwrap_or_default()), &format!("{symptoms:?}"), json!({"case": c, "result": r}));
+                }
+                other => rep.inconclusive(&key, &format!("{other}: {}", r["why"].as_str().unwrap_or(""))),
+            }
+        }
+    }
     rep.extra.insert("cases_generated".into(), json!(total));
     rep.extra.insert("cases_with_result".into(), json!(results.len()));
     rep.extra.insert("not_exercised".into(), json!(not_ex));
@@ -1278,7 +1307,7 @@ pub fn run_c10_real(cfg: &Cfg) -> i32 {
     let mut rep = Report::new(
         "C10",
         cfg,
-        "one evaluation = one real session (TLS / SSH / child process) over which a load-configuration request with a text payload of 100 B - 1.2 MB (metacharacters, quotes, non-ASCII, ]]>) and then a small request are sent; the peer checks that it received each as one well-formed document followed by one delimiter and recovers the payload; \
+        "one evaluation = one real session (TLS / SSH / child process) over which a load-configuration request with a text payload of 100 B - 1.2 MB (metacharacters, quotes, non-ASCII, ]]>) and then a small request are sent (the small one after the large one was answered, or directly behind it); the peer checks that it received each as one well-formed document followed by one delimiter and recovers the payload; \
          distinct = distinct (transport, size); non-trivial = payload larger than a pipe buffer (64 KiB)",
     );
     let sizes: Vec<usize> = if cfg.thorough() { vec![100, 4_000, 65_000, 65_536, 66_000, 131_072, 300_000, 1_200_000, 5_000_000] } else { vec![100, 65_000, 70_000, 300_000, 1_200_000] };
@@ -1288,13 +1317,20 @@ pub fn run_c10_real(cfg: &Cfg) -> i32 {
         for &size in &sizes {
             id += 1;
             cases.push(json!({"kind": "big-request", "id": id, "tr": tr.name(), "size": size}));
+            if size >= 65_000 {
+                id += 1;
+                cases.push(json!({"kind": "big-request", "id": id, "tr": tr.name(), "size": size, "pipelined": true}));
+            }
         }
     }
     let results = run_cases(cases, 8, &[], Duration::from_secs(90));
     for cr in &results {
         let (c, r) = (&cr.case, &cr.result);
-        let key = format!("{}|{}", c["tr"], c["size"]);
+        let key = format!("{}|{}|{}", c["tr"], c["size"], c["pipelined"]);
         rep.case(if c["size"].as_u64().unwrap_or(0) > 65_536 { Some(key.as_bytes()) } else { None });
+        if c["pipelined"] == true {
+            rep.count("cases_with_the_next_request_handed_over_directly_behind_the_large_one");
+        }
         rep.count_n("payload_bytes_sent", r["payload_bytes"].as_u64().unwrap_or(0));
         match r["verdict"].as_str().unwrap_or("") {
             "held" => rep.count("held"),
